@@ -641,6 +641,13 @@ def groMolLines (G : GroLayout) (start : Nat) : List Mol → List (List Char)
 /-- atom lines of `write_gro` (title, count and box lines are added by the driver) -/
 def writeGro (G : GroLayout) (sys : List Mol) : List (List Char) := groMolLines G 1 sys
 
+/-- `write_gro(..., precision=p)`: the format string for that precision comes from the extracted table -/
+def writeGroPrec (G : GroLayout) (fmts : List (Nat × List Seg)) (p : Nat) (sys : List Mol) :
+    Except Err (List (List Char)) :=
+  match fmts.lookup p with
+  | some fmt => .ok (writeGro { G with atomFmt := fmt } sys)
+  | none => .error .unmodelled
+
 /-- `str.find(c, from)`; python returns -1 when absent -/
 def findFrom (s : List Char) (c : Char) (start : Nat) : Option Nat :=
   let rec go (i : Nat) (l : List Char) : Option Nat :=
